@@ -783,6 +783,8 @@ int fstack_update(int type, struct uftrace_task_reader *task, struct uftrace_fst
 			/* these are user functions */
 			task->user_display_depth = setjmp_depth;
 			task->user_stack_count = setjmp_count;
+			/* only a guess (the latest setjmp), see fstack_update_stack_count() */
+			task->longjmp_pending = true;
 		}
 		else {
 			task->display_depth++;
@@ -2081,6 +2083,31 @@ static void fstack_update_stack_count(struct uftrace_task_reader *task)
 		task->ctx = FSTACK_CTX_KERNEL;
 	else
 		task->ctx = FSTACK_CTX_UNKNOWN;
+
+	if (rstack->type == UFTRACE_EXIT && task->longjmp_pending) {
+		/*
+		 * The EXIT record following a longjmp() belongs to the setjmp()
+		 * it went back to.  The fix-up in fstack_update() could only
+		 * assume it was the latest setjmp(); the depth in the record
+		 * tells which one it really was.
+		 */
+		int diff = task->stack_count - 1 - (int)rstack->depth;
+
+		task->longjmp_pending = false;
+		if (diff != 0 && task->ctx == FSTACK_CTX_USER) {
+			task->stack_count -= diff;
+			task->user_stack_count -= diff;
+			task->display_depth -= diff;
+			task->user_display_depth -= diff;
+
+			if (task->user_stack_count < 0)
+				task->user_stack_count = 0;
+			if (task->display_depth < 0)
+				task->display_depth = 0;
+			if (task->user_display_depth < 0)
+				task->user_display_depth = 0;
+		}
+	}
 
 	if (rstack->type == UFTRACE_ENTRY)
 		task->stack_count++;
